@@ -181,6 +181,10 @@ def run(ctx, replay=None):
                 if len(ctx.samples) < 4 and _nontrivial(byid[s["id"]]) and s["cfg"]["mode"] in ("forge", "product") and len(byid[s["id"]]) < 12:
                     ctx.add_samples([{"cfg": s["cfg"], "script": [dict(act=x["act"], a=x["a"]) for x in s["steps"]], "observed": byid[s["id"]][-2:]}], limit=4)
                     break
+    unbuilt = [e for e in events if e.get("ev") == "forge" and not e.get("built", True)]
+    ctx.extra["forgeries_not_built"] = len(unbuilt)
+    if unbuilt and not ctx.violations and not ctx.known:
+        raise vf.Infra("the attacker library could not build %d forgeries (%s): the driver needs an update, no claim is made" % (len(unbuilt), unbuilt[0].get("err")))
     ctx.extra["presented_envelopes"] = presented
     ctx.extra["single_bit_flips"] = flips
     ctx.extra.setdefault("bounds", {})["scripts_run"] = {("shared" if k else "pergroup"): len(v) for k, v in groups.items()}
